@@ -106,22 +106,23 @@ def register(reg):
     reg.contract(
         F, "RSMIDecomposer.decompose",
         params={"smiles": STR}, returns=COMP, fresh_result=True,
-        # domain of the property: no wildcard atoms (atomic number 0 is accounted under 'Q' and would collide with the charge key)
-        requires=["forall(range(0, len(%s)), lambda j: table_name(%s[j]) != 'Q')" % (ATOMS, ATOMS)],
+        pure=True,  # a function of the string (RDKit's parser and hydrogen completion are functions of it): DEC in the row contracts
         ensures=[
             "implies(not VALID(smiles), forall(STR, lambda k: not (k in result)))",
             # every atom of the hydrogen-complete molecule is counted exactly once under its name [C07, C01, C04]
             "implies(VALID(smiles), forall(STR, lambda k: implies(k != 'Q', get0(result, k) == atomcount(%s, len(%s), k))))" % (ATOMS, ATOMS),
-            # the net charge is stored under 'Q' exactly when it is non-zero
-            "implies(VALID(smiles), get0(result, 'Q') == addhs(molof(smiles)).charge and ('Q' in result) == (addhs(molof(smiles)).charge != 0))",
+            # the net charge is stored under 'Q' exactly when it is non-zero.  Domain of the claim: no wildcard atoms
+            # (atomic number 0 is accounted under 'Q' and collides with the charge key)
+            "implies(VALID(smiles) and forall(range(0, len(%s)), lambda j: table_name(%s[j]) != 'Q'), "
+            "get0(result, 'Q') == addhs(molof(smiles)).charge and ('Q' in result) == (addhs(molof(smiles)).charge != 0))" % (ATOMS, ATOMS),
             # no zero count is stored (precondition of compare_dicts)
             "forall(STR, lambda k: implies(k in result, result[k] != 0))",
         ],
         loops={0: {"inv": [
             "forall(STR, lambda k: get0(comp, k) == atomcount(%s, _i, k))" % ATOMS,
             "forall(STR, lambda k: (k in comp) == (get0(comp, k) != 0))",
-            "not ('Q' in comp)",
+            "implies(forall(range(0, len(%s)), lambda j: table_name(%s[j]) != 'Q'), not ('Q' in comp))" % (ATOMS, ATOMS),
             "fresh(comp)",
         ]}},
         modifies=[],
-        props=["C07", "C01", "C04"])
+        props=["C07", "C01", "C04", "C14"])
